@@ -832,6 +832,14 @@ func (env *Env) call(e *ast.CallExpr) Term {
 		argn(2)
 		a, b := env.tr(e.Args[0]), env.tr(e.Args[1])
 		return boolT(fmt.Sprintf("(str.prefixof %s %s)", b.S, a.S))
+	case "hassuffix":
+		argn(2)
+		a, b := env.tr(e.Args[0]), env.tr(e.Args[1])
+		return boolT(fmt.Sprintf("(str.suffixof %s %s)", b.S, a.S))
+	case "strcontains":
+		argn(2)
+		a, b := env.tr(e.Args[0]), env.tr(e.Args[1])
+		return boolT(fmt.Sprintf("(str.contains %s %s)", a.S, b.S))
 	case "funcval":
 		// the value of a package-level function of the contract's package used as a function value
 		argn(1)
